@@ -545,6 +545,21 @@ func flProcess(c *Ctx, a *flAgg) {
 		} else {
 			a.bad("FL-suffix-once", "process/stop-on-error-only", "the loop is left although ScanSnapshot returned no error ("+litsString(p)+"): the rest of the input is neither read nor copied", pos)
 		}
+		// success is reported only for a stream read to its end: after any
+		// other error the rest of the input was neither parsed nor copied
+		if len(p.Results) == 1 && p.Results[0].isNilConst() {
+			eof := false
+			for _, lt := range p.Lits {
+				if lt.Pol && (lt.Atom.Op == OpBin && lt.Atom.Tok == token.EQL || lt.Atom.calleeIs("errors", "Is")) && strings.Contains(lt.Atom.String(), "io.EOF") {
+					eof = true
+				}
+			}
+			if eof {
+				a.ok("FL-suffix-once", "process/success-only-at-EOF", "process reports success only when the input was read to its end", pos)
+			} else {
+				a.bad("FL-suffix-once", "process/success-only-at-EOF", "process returns nil although the scan stopped with an error other than EOF ("+litsString(p)+"): the input behind the returned remainder is never copied, yet the program exits 0", pos)
+			}
+		}
 		emptyS, haveLen := p.lit("(len(" + suffix + ") == 0)")
 		switch {
 		case !haveLen && len(writes) == 1 && len(writes[0].Val.Args) == 2 && writes[0].Val.Args[1].String() == suffix:
